@@ -196,7 +196,10 @@ fn d_parse(toks: &[&str], pos: &mut usize) -> Option<E> {
 
 // ------------------------------------------------------------------ layout decoration
 
-const DECOR: [&str; 13] = [" ", "\t", "\r", "\n", "\r\n", "/**/", "/* x */", "/* ** / */", "/* 👍 ž */", "/* a\n   b\n*/", "// c\n", "// 👍\n", "  "];
+const DECOR: [&str; 19] = [
+    " ", "\t", "\r", "\n", "\r\n", "/**/", "/* x */", "/* ** / */", "/* 👍 ž */", "/* a\n   b\n*/", "// c\n", "// 👍\n", "  ", "/***/", "/** doc **/", "/* 👍 **/",
+    "/****\n * banner\n ****/", "/* a // b */", "// /* not open\n",
+];
 
 pub fn decorate(toks: &[String], t: &mut Tape) -> String {
     let mut s = String::new();
